@@ -15,7 +15,7 @@ import os
 import z3
 
 from pyvc import cx, ob, prelude
-from .cxutil import clause, canary
+from .cxutil import clause, canary, fresh_consts, UNRECOGNISED
 
 PROP = 'C13'
 ABS, SQRT, CONJ = prelude.PW['abs'], prelude.PW['sqrt'], prelude.PW['conj']
@@ -218,6 +218,133 @@ def task_setters():
     return col.pack()
 
 
+# ---- histories of explicit assignments: what is read back (and what the standard deviation is made of) is the value assigned LAST
+def _size_one_item(it, f, args, kw, node):
+    """local dependency contract: ndarray.item() of a size-one array is its (only) element"""
+    v = f.bound
+    if isinstance(v, cx.NDArr) and v.store.val is not None:
+        return v.store.val
+    return it.ctx.fresh_real('item')
+
+
+def _float_of(it, f, args, kw, node):
+    """local dependency contract: float(x) is a real number (never a str, never None); of a size-one array it is the element"""
+    v = args[0] if args else 0.0
+    if isinstance(v, cx.NDArr):
+        return v.store.val if v.store.val is not None else it.ctx.fresh_real('float')
+    if isinstance(v, cx.Opaque):
+        return it.ctx.fresh_real('float')
+    return prelude.TABLE['builtins.float'](it, f, args, kw, node)
+
+
+def assigned(i):
+    return z3.Real(f'assigned_{i + 1}')
+
+
+def elem(v):
+    """the value a noise parameter has at the generic datum: None, a real term, or UNRECOGNISED (value not tracked);
+    False for something that is no noise parameter at all (e.g. the internal str flag)"""
+    if v is None:
+        return None
+    if isinstance(v, (str, bool)):
+        return False
+    if isinstance(v, (int, float)):
+        return z3.RealVal(repr(float(v)))
+    if isinstance(v, cx.NDArr):
+        if v.store.val is None or not z3.is_expr(cx.R(v.store.val)):
+            return UNRECOGNISED('point-wise value of the array read back is not tracked')
+        v = cx.R(v.store.val)
+    if z3.is_expr(v):
+        if not (z3.is_real(v) or z3.is_int(v)):
+            return False
+        if fresh_consts(v):
+            return UNRECOGNISED('value read back depends on a value the executor could not track')
+        return z3.ToReal(v) if z3.is_int(v) else v
+    return UNRECOGNISED(f'value read back is not tracked ({type(v).__name__})')
+
+
+STEP_KINDS = ('none', 'scalar', 'array')
+
+
+def task_assign_then_read():
+    """histories: a survey with (absent / scalar / array) noise parameters; noise_floor or relative_error is explicitly assigned once or twice
+    (None / a scalar / an array, which may have one element or more; a non-positive value is rejected and must change nothing); then the
+    parameter and the standard deviation are read through the public getters.  After two assignments the dataset is in every state the
+    real setter can leave behind, so the clauses hold after every history of assignments by induction on its length."""
+    col = ob.Collector(PROP, 'surveys.Survey/assign_then_read')
+    col.default_replay = replay_survey
+    for q in ('surveys.Survey.noise_floor', 'surveys.Survey.relative_error', 'surveys.Survey._set_nf_re', 'surveys.Survey.standard_deviation'):
+        col.function(q)
+    col.trust('ndarray.item() / float() of a size-one array: the value of its only element; float(x) is a real number (not a str, not None)')
+    res = []
+    hists = [(a,) for a in STEP_KINDS] + list(itertools.product(STEP_KINDS, STEP_KINDS))
+    for name, other, kind0, steps in itertools.product(('noise_floor', 'relative_error'), ('scalar', 'array'), KINDS, hists):
+        def run(ctx, name=name, other=other, kind0=kind0, steps=steps):
+            ctx.opts['getattr_hook'] = ds_hook
+            ctx.opts.setdefault('prelude', {}).update({'ndarray.item': _size_one_item, 'builtins.float': _float_of})
+            nf, re = (kind0, other) if name == 'noise_floor' else (other, kind0)
+            sv, ds = mk_survey(nf, re, False)
+            it = cx.Interp(ctx, 'surveys')
+            cur = None if kind0 is None else (NF if name == 'noise_floor' else RE)
+            hist = [cur]
+            for i, k in enumerate(steps):
+                val = {'none': None, 'scalar': assigned(i), 'array': cx.NDArr(cx.Store(f'given-value-{i + 1}', assigned(i)))}[k]
+                try:
+                    it.setattr(sv, name, val)
+                    cur = None if k == 'none' else assigned(i)
+                except cx._Raise:
+                    pass                      # rejected assignment: the previous value stays
+                hist.append(cur)
+            st = dict(ds=ds, name=name, other=other, cfg=(name, other, kind0, steps), cur=cur, hist=hist)
+            try:
+                st['read'] = it.getattr(sv, name)
+                st['sd'] = it.getattr(sv, 'standard_deviation')
+            except cx._Raise as e:
+                return 'raise', e.exc, st
+            return 'return', st['read'], st
+        res += cx.explore(run)
+
+    def read_ok(r, want=None):
+        if r.outcome != 'return':
+            return False
+        want = r.state['cur'] if want is None else want[0]
+        got = elem(r.state['read'])
+        if isinstance(got, type(UNRECOGNISED)) or got is False:
+            return got
+        if want is None or got is None:
+            return want is None and got is None
+        return got == want
+    clause(col, 'getter_returns_the_value_assigned_last__None_scalar_or_broadcast_array__rejected_assignment_changes_nothing', res, read_ok, sample=True)
+
+    def sd_ok(r):
+        if r.outcome != 'return':
+            return False
+        name, other = r.state['name'], r.state['other']
+        mine, oth = r.state['cur'], (RE if name == 'noise_floor' else NF)
+        nfv, rev = (mine, oth) if name == 'noise_floor' else (oth, mine)
+        sd = r.state['sd']
+        if isinstance(sd, cx.Opaque):
+            return UNRECOGNISED('standard deviation is not tracked')
+        if nfv is None and rev is None:
+            return sd is None
+        got = elem(sd)
+        if got is None or got is False or isinstance(got, type(UNRECOGNISED)):
+            return False if got is None else got
+        want = z3.RealVal(0)
+        hyp = []
+        if nfv is not None:
+            want = want + nfv * nfv
+        if rev is not None:
+            want = want + (rev * ABS(DOBS)) * (rev * ABS(DOBS))
+            hyp = [rev > 0, ABS(rev * DOBS) == rev * ABS(DOBS)]       # |re d| == re |d| for re > 0 (non-positive values are rejected)
+        return z3.Implies(z3.And(*hyp), got == SQRT(want)) if hyp else got == SQRT(want)
+    clause(col, 'standard_deviation_is_made_of_the_values_assigned_last', res, sd_ok, sample=True)
+    # canary: "what is read back is the value the parameter had BEFORE the last assignment" must be refuted
+    canary(col, 'canary/getter_returns_the_value_before_the_last_assignment', res,
+           lambda r: read_ok(r, want=(r.state['hist'][-2],)) if r.outcome == 'return' and not isinstance(elem(r.state['read']), type(UNRECOGNISED)) else None)
+    return col.pack()
+
+
 def task_add_noise():
     col = ob.Collector(PROP, 'surveys.Survey.add_noise')
     col.default_replay = replay_survey
@@ -369,7 +496,7 @@ def task_concrete():
 
 
 def tasks(tier):
-    return [('contracts.c13', n, {}) for n in ('task_std_getter', 'task_setters', 'task_add_noise', 'task_misfit', 'task_to_dict_select', 'task_concrete')]
+    return [('contracts.c13', n, {}) for n in ('task_std_getter', 'task_setters', 'task_assign_then_read', 'task_add_noise', 'task_misfit', 'task_to_dict_select', 'task_concrete')]
 
 
 LEVEL = ('Control-executor proof over the real source of the Survey noise model and Simulation.misfit with abstract xarray objects: '
